@@ -86,12 +86,25 @@ type Runner struct {
 	Verbose   bool
 }
 
-// N picks a count by tier.
+// Scale multiplies the per-tier counts of a check (quick, thorough): the base
+// counts in the checks were sized for sub-second runs during development; the
+// factors bring each tier to its budget (quick ~10-30 s, thorough ~2-6 min on 16 cores).
+var Scale = map[string][2]int{
+	"C01": {40, 80}, "C02": {60, 150}, "C03": {40, 60}, "C04": {5, 8}, "C05": {2, 1}, "C06": {3, 4}, "C07": {60, 100},
+	"C08": {30, 25}, "C09": {5, 10}, "C10": {40, 15}, "C11": {30, 10}, "C12": {20, 10}, "C13": {5, 20}, "C14": {40, 30},
+	"C15": {6, 5}, "C16": {60, 100}, "C17": {30, 4}, "C18": {60, 40}, "C19": {2, 1}, "C20": {2, 2},
+}
+
+// N picks a count by tier (scaled by Scale).
 func (r *Runner) N(quick, thorough int) int {
-	if r.Thorough {
-		return thorough
+	m := [2]int{1, 1}
+	if s, ok := Scale[r.ID]; ok {
+		m = s
 	}
-	return quick
+	if r.Thorough {
+		return thorough * m[1]
+	}
+	return quick * m[0]
 }
 
 type deltaRec struct {
